@@ -29,7 +29,10 @@ type Scenario struct {
 	// RealDone lists the log kinds whose presence means a real-runtime execution is complete; nil = the scenario
 	// is not run by the free-running pass (it does not terminate by itself, or depends on the virtual clock)
 	RealDone []string
-	Sym      bool // sibling library goroutines (workers of one fork stage) are interchangeable
+	// Live: liveness scenario - explored under rt's DonePriority restriction; an execution that runs into the
+	// horizon is a violation (Check is called with o.Horizon set) instead of an inconclusive run
+	Live bool
+	Sym  bool // sibling library goroutines (workers of one fork stage) are interchangeable
 	Sample   any  // printable description of the configuration
 	// Nontrivial reports whether the explored scenario is non-trivial given the number of distinct outcomes
 	Nontrivial func(outcomes, executions, states int) bool
@@ -61,13 +64,17 @@ func (s *Scenario) explorer(deadline time.Time, counters, maxima map[string]int)
 	return &explore.Explorer{
 		Bound: s.Bound, Cache: true, MaxViol: 1, Deadline: deadline,
 		Root: s.Root,
-		Cfg:  func(x *rt.Exec) { x.LibPrefix = LibPrefix; x.PoolLIFO = s.PoolLIFO; x.Symmetry = s.Sym },
+		Cfg:  func(x *rt.Exec) { x.LibPrefix = LibPrefix; x.PoolLIFO = s.PoolLIFO; x.Symmetry = s.Sym; x.DonePriority = s.Live
+			if s.Live {
+				x.Horizon = 400
+			}
+		},
 		Check: func(x *rt.Exec) string {
 			o := Observe(x)
 			if s.Count != nil && counters != nil {
 				s.Count(o, counters, maxima)
 			}
-			if x.HitHorizon {
+			if x.HitHorizon && !s.Live {
 				return ""
 			}
 			return s.Check(o)
@@ -94,7 +101,9 @@ func (s *Scenario) Run(deadline time.Time) drv.Result {
 	if e.MaxDepth > maxima["max_depth"] {
 		maxima["max_depth"] = e.MaxDepth
 	}
-	if e.HorizonHits > 0 {
+	if e.HorizonHits > 0 && s.Live && len(e.Violations) > 0 {
+		r.Exhaustive = true // the horizon hit is the violation that was looked for
+	} else if e.HorizonHits > 0 {
 		counters["horizon_hits"] += e.HorizonHits
 		r.Note = "horizon hit"
 	} else if !e.Exhaustive {
